@@ -16,7 +16,7 @@ META = {
     "bounds": {"quick": {"tasks": "2-3", "work": "0..2", "due": "0..3", "inject step": "0..4"}, "thorough": {"tasks": "3", "work": "0..3", "due": "0..3", "inject step": "0..6"}},
     "outside": profiles.OUTSIDE + ["exceptions raised at points other than the four observed phases of a step"],
 }
-REQUIRED_COVERS = {"any": ["aborted-by-exception", "helper-task-used", "success", "fs-order-checked", "forward-after-backward"]}
+REQUIRED_COVERS = {"any": ["aborted-by-exception", "aborted-by-own-exception", "helper-task-used", "success", "fs-order-checked", "forward-after-backward"]}
 
 
 def structure(M):
@@ -62,7 +62,11 @@ def backward(p, ctx):
                 ok, r = False, e
         injected = (not ok) and isinstance(r, (Injected, InjectedBase))
         if not ok and not injected:
-            ctx.fail("C17:backward-raised:%s" % exc_tag(r))
+            if p.get("may_raise"):
+                # a model on which the run legitimately raises by itself (empty workflow): the model must be intact all the same
+                ctx.cover("aborted-by-own-exception")
+            else:
+                ctx.fail("C17:backward-raised:%s" % exc_tag(r))
         if injected:
             ctx.cover("aborted-by-exception")
         after = structure(M)
@@ -151,13 +155,24 @@ def obligations(tier, seed):
     members.append(("prod-links", fac["cube"]["spec"], [[n, max(lo, 1), min(hi, 2)] for n, lo, hi in fac["params"] if n not in ("z1", "fs1")], {"z1": 1, "fs1": 1}))
     fa = [ob for ob in profiles.p_facility(thorough) if "1wp2f/fsk=all/solof=0/fixf=None/mixed=0" in ob["name"]][0]
     members.append(("facility-absence", fa["cube"]["spec"], [["w0", 2, 4], ["fa0", 0, 3]], {"w1": 1, "s00": 1, "f00": 1, "f11": 1, "cap": 2, "a1": -1}))
+    # no task at all (the run raises by itself), workplaces linked by a conveyor relation
+    members.append(("empty-wf-links", {"tasks": [], "edges": [], "teams": [{"targets": [], "workers": [{"skills": {}}]}],
+                                       "wps": [{"targets": [], "cap": 1, "facs": [{"skills": {}}]}, {"targets": [], "cap": "$cap1", "facs": [], "inputs": [0]}],
+                                       "comps": [{"size": 1}], "run": {"max_time": 4}}, [["cap1", 1, 2]], {"may_raise": True}))
+    # two tail tasks that carry the same name (skills are keyed by name, so this is how "the same kind of work" is modelled)
+    members.append(("same-name-tails", {"tasks": [{"w": "$w0", "due": "$d0"}, {"w": "$w1", "due": "$d1", "name": "TX"}, {"w": "$w2", "due": "$d2", "name": "TX"}, {"w": 1, "due": 4}],
+                                        "edges": [[0, 1, 0], [0, 2, 0]],
+                                        "teams": [{"targets": [0, 1, 2, 3], "workers": [{"skills": {"0": 1, "X": 1, "3": 1}}, {"skills": {"0": 1, "X": 1, "3": 1}}]}], "run": {"max_time": 14}},
+                    [["w0", 1, 2], ["w1", 1, 2], ["w2", 1, 2], ["d1", 0, 3], ["d2", 0, 3]], {"d0": -1}))
     for mname, spec, params, consts in members:
         for due in (0, 1):
             for rev in (0, 1):
                 for phase in (None, "updated", "allocated", "performed", "recorded", "updated!"):
                     if mname in ("prod-links", "facility-absence") and due == 1:
                         continue
-                    if mname == "facility-absence" and phase not in (None, "performed"):
+                    if mname in ("facility-absence", "same-name-tails") and phase not in (None, "performed"):
+                        continue
+                    if mname == "empty-wf-links" and phase is not None:
                         continue
                     ikind = "exception"
                     if phase == "updated!":
